@@ -9,7 +9,7 @@ import (
 func init() {
 	register(&Property{
 		ID: "C04", Level: "exploration", Builds: []string{"plain"},
-		Rule:        "cases = generated bitmaps (all chunk archetypes, 11 storage forms, gaps between keys, runs ending at 65535, key 0xFFFF) each driven through 9 protocol drivers with random call interleavings: Iterator {HasNext,Next,PeekNext,AdvanceIfNeeded(m)} with m <= current / inside chunk / in a gap key / beyond max; ReverseIterator; ManyIterator.NextMany/NextMany64 with buffer-length sequences over {0,1,2,3,4,5,63,64,65,4095,4096,65535,65536,65537,random}; Iterate/Values/Backward/Ranges/Unset with early termination at index j; UnsetIterator(a,b) windows (mid-chunk start, end at chunk edge, end=2^32, a=b, inside a full chunk, over absent keys, across key 0xFFFF) with Peek/Advance interleavings; re-Initialize of the exported iterator types on a second bitmap. Oracle = cursor over the interval-set model (complement computed lazily). Logical bound: a protocol that yields more than |L|+1 values is a violation. Plus ALL NextMany buffer-length pairs <= 5 on boundary sets. Non-trivial: non-empty bitmap; distinct = hash(set, form, driver choices).",
+		Rule:        "cases = generated bitmaps (all chunk archetypes, 11 storage forms, gaps between keys, runs ending at 65535, key 0xFFFF) each driven through 9 protocol drivers with random call interleavings: Iterator {HasNext,Next,PeekNext,AdvanceIfNeeded(m)} with m <= current / inside chunk / in a gap key / beyond max; ReverseIterator; ManyIterator.NextMany/NextMany64 with buffer-length sequences over {0,1,2,3,4,5,63,64,65,4095,4096,65535,65536,65537,random}; Iterate/Values/Backward/Ranges/Unset with early termination at index j; UnsetIterator(a,b) windows (mid-chunk start, end at chunk edge, end=2^32, a=b, inside a full chunk, over absent keys, across key 0xFFFF) with Peek/Advance interleavings; re-Initialize of the exported iterator types on a second bitmap. Oracle = cursor over the interval-set model (complement computed lazily). Logical bound: a protocol that yields more than |L|+1 values is a violation. Plus ALL NextMany buffer-length pairs <= 5 on boundary sets. Non-trivial: non-empty bitmap; distinct = hash(set, form, driver choices). A stored sequence value (Values, Backward, Ranges, Unset) is ranged over a second time after an early break and must start from the beginning again.",
 		Assumptions: []string{"interval-set model validated by selfcheck", "calling Next/PeekNext when HasNext is false is out of domain", "Iterate's order is not specified by its documentation: only the multiset and the stop request are checked"},
 		Units: []Unit{
 			{Name: "protocols", Quick: 3000, Thorough: 150000, Run: c04Protocols},
